@@ -35,17 +35,51 @@ def _ctext(sk, s):
     return sk.plain(s)
 
 
-def _body(ctx, rel, cfg, fname):
+class _Func:
+    """one driver function: parameter names (by position, from its header), statement tree with the bare calls of void
+    helper functions of the same file replaced by their bodies, and the definitions / positions of its locals"""
+
+    def __init__(self, sk, f, body):
+        self.header = f.header
+        self.params = cstmt.params_of(f.header)
+        self.body = body
+        self.fn = cstmt.Fn(body)
+
+
+def _helpers(sk, but):
+    """void functions of the file (free or member), by unqualified name"""
+    cache = sk.__dict__.setdefault("_c19_helpers", {})
+    for f in sk.funcs:
+        short = f.name.split("::")[-1]
+        if f.name in cache or f.name == "?" or not re.search(r"\bvoid\b[\s\w:*&]*\b" + re.escape(short) + r"\s*\($", f.header[:f.header.find("(") + 1].replace("\n", " ")):
+            continue
+        params = cstmt.params_of(f.header)
+        try:
+            cache[f.name] = (short, params, cstmt.parse_body(_ctext(sk, f.body))) if params is not None else None
+        except cstmt.CStmtError:
+            cache[f.name] = None
+    return {v[0]: (v[1], v[2]) for k, v in cache.items() if v and k != but}
+
+
+def _func(ctx, rel, cfg, fname):
     sk = Skel(J.flatten(ctx.tree, rel, cfg))
     fs = sk.func(fname)
     if not fs:
-        return None, None
+        return None
     text = _ctext(sk, fs[0].body)
     try:
-        return cstmt.parse_body(text), text
+        body = cstmt.inline_calls(cstmt.parse_body(text), _helpers(sk, fname))
     except cstmt.CStmtError as ex:
         ctx.unrec("R1", f"{rel.split('/')[-1]}:{fname}", (rel, 0), f"statement parser: {ex}")
-        return None, None
+        return None
+    fn = _Func(sk, fs[0], body)
+    fn.text = text
+    return fn
+
+
+def _body(ctx, rel, cfg, fname):
+    fn = _func(ctx, rel, cfg, fname)
+    return (None, None) if fn is None else (fn.body, fn.text)
 
 
 def check(ctx):
@@ -109,145 +143,308 @@ def _r1(ctx):
     ctx.floor("R1", "driver functions", n, 9)
 
 
-def _strip_casts(s):
-    return re.sub(r"\(\s*(realtype|double|float|int)\s*\)", "", s)
+CONSTS = {"NAUNET_SUCCESS": 0, "NAUNET_FAIL": 1}
+REC, RESET = (-1, -2, -3, -4), (-6,)
+NEG = (-1, -2, -3, -4, -5, -6, -7, -8, -9, -10, -11, -22, -99)      # sample of failure flags: CVODE's own range and beyond
+
+
+def _guards(F, conds, keep=()):
+    """the `if` guards of a statement with once-defined locals (`bool ok = flag >= 0;`) replaced by their definitions"""
+    return [(g[0], tuple(F.expand(g[1], F.pos.get(id(g[3]), 0), keep=keep)), g[2], g[3]) if g[0] == "if" else g for g in conds]
+
+
+def _relevant(F, g, names):
+    """can the guard say anything about `names`?  Only when it mentions one of them or a local computed in this function."""
+    return any(t in names or t in F.defs for t in g[1] if cstmt.IDENT.match(t))
+
+
+def _is_call(st, callee):
+    if st[0] != "expr":
+        return None
+    ac = cstmt.assigned_call(st[1])
+    return ac if ac and ac[1] == callee else None
+
+
+def _r2_handle_error(ctx, label, F, FLAG):
+    rets = [(s, c) for s, c in F.seq if s[0] == "return"]
+    nsucc = 0
+    odd = []
+    for s, c in rets:
+        g = _guards(F, c, keep=(FLAG,))
+        ifs = [x for x in g if x[0] == "if"]
+        # is this an exit that can report success at all?
+        v0 = cstmt.value(s[1], {FLAG: 0, **CONSTS})
+        if v0 is None or v0 not in (0, 1):
+            odd.append(cstmt.txt(s[1]))
+            continue
+        if v0 != 0:
+            continue
+        nsucc += 1
+        key = f"{label}:HandleError:success#{nsucc} guarded"
+        bad_for, undecided = [], []
+        for v in NEG:
+            env = {FLAG: v, **CONSTS}
+            if cstmt.value(s[1], env) == 1:
+                continue
+            reach = cstmt.guards_truth(ifs, env)
+            if reach is None:
+                # guards that cannot depend on the flag do not protect the exit
+                rel = [x for x in ifs if cstmt.truth(x[1], env) is not None or _relevant(F, x, {FLAG})]
+                reach = cstmt.guards_truth(rel, env)
+            if reach is True:
+                bad_for.append(v)
+            elif reach is None:
+                undecided.append(v)
+        shown = str([("" if x[2] else "!") + "(" + cstmt.norm(x[1]) + ")" for x in ifs])
+        if bad_for:
+            ctx.bad("R2", key, (CV, 0), f"a `return NAUNET_SUCCESS` is reachable without the test `{FLAG} >= 0` on the last integrator flag (e.g. with {FLAG} = {bad_for[0]})",
+                    expected=f"if ({FLAG} >= 0) {{ .. return NAUNET_SUCCESS; }}", found=shown)
+        elif undecided:
+            ctx.unrec("R2", key, (CV, 0), f"cannot decide whether the guards {shown} exclude a negative {FLAG}")
+        else:
+            ctx.ok("R2", key, (CV, 0), f"success is returned only under `{FLAG} >= 0`")
+            # the tested flag is the returned-on flag: no write to it between the test and the return
+            rp = F.pos[id(s)]
+            est = [x for x in ifs if all(cstmt.truth(x[1], {FLAG: v, **CONSTS}) is (not x[2]) for v in NEG)]
+            starts = [F.pos.get(id(x[3]), 0) for x in (est or ifs)]
+            unchanged = any(not F.written_between({FLAG}, p, rp) for p in starts) if est else not F.written_between({FLAG}, min(starts or [rp]), rp)
+            ctx.check(unchanged, "R2", f"{label}:HandleError:flag unchanged before success#{nsucc}", (CV, 0), "the tested flag is the one returned on",
+                      found=f"{FLAG} is written between its test and the return")
+    if odd:
+        ctx.unrec("R2", f"{label}:HandleError:return values", (CV, 0), f"exit value(s) {odd} are neither NAUNET_SUCCESS nor NAUNET_FAIL nor decided by the flag")
+    else:
+        ctx.ok("R2", f"{label}:HandleError:return values", (CV, 0), "every exit returns NAUNET_SUCCESS or NAUNET_FAIL")
+    if nsucc >= 2:
+        ctx.ok("R2", f"{label}:HandleError:success exits", (CV, 0), "success exits: at entry (nothing to repair) and after a completed level")
+    else:
+        ctx.unrec("R2", f"{label}:HandleError:success exits", (CV, 0), f"expected a success exit at entry and one after a completed level, found {nsucc}")
+    last = F.body[1][-1] if F.body[0] == "block" and F.body[1] else ("?",)
+    ctx.check(last[0] == "return" and cstmt.value(last[1], CONSTS) == 1, "R2", f"{label}:HandleError:falls through to failure", (CV, 0),
+              "when all levels are exhausted the function returns NAUNET_FAIL", found=cstmt.txt(last[1]) if last[0] == "return" else last[0])
+
+
+def _loop_var(loop):
+    """(variable, expression text of its value in the last iteration) of `for (..; v < E; v++)` / `.. while (v <= E) { ..; v++; }`"""
+    cond = loop[2] if loop[0] == "for" else loop[1]
+    incs = cstmt.assignments(loop[3]) if loop[0] == "for" else []
+    if loop[0] == "while":
+        body = loop[2][1] if loop[2][0] == "block" else [loop[2]]
+        for b in body:
+            if b[0] == "expr":
+                incs += [a for a in cstmt.assignments(b[1]) if a[0] in cond]
+    unit = [nm for nm, op, rhs, decl in incs if op == "++" or (op == "+=" and cstmt.norm(rhs) == "1") or (op == "=" and cstmt.norm(rhs) in (f"{nm}+1", f"1+{nm}"))]
+    if len(unit) != 1 or len(incs) != 1:
+        return None
+    v = unit[0]
+    for op, flip in (("<", False), ("<=", False), (">", True), (">=", True), ("!=", False)):
+        parts = cstmt._top_split(cond, (op,))
+        if len(parts) == 2:
+            lhs, rhs = (parts[1], parts[0]) if flip else (parts[0], parts[1])
+            if lhs == [v] and v not in rhs:
+                bound = " ".join(rhs)
+                return v, (f"({bound}) - 1" if op in ("<", ">", "!=") else f"({bound})")
+    return None
+
+
+def _r3_ladder(ctx, label, F, FLAG, AB, DT, T0):
+    body = F.body
+    where = (CV, 0)
+
+    def reinit(st):
+        return _is_call(st, "CVodeReInit")
+    loops = [s for s, c in F.seq if s[0] in ("for", "while", "dowhile") and any(reinit(x) for x, _ in cstmt.walk(s))]
+    if not loops:
+        ctx.unrec("R3", f"{label}:level loop", where, "no loop around a CVodeReInit call: the recovery ladder is not in a shape this rule understands")
+        return
+    loop = loops[0]
+    ctx.ok("R3", f"{label}:level loop", where, "one recovery ladder: the loop that re-initialises the integrator")
+    # ---- the levels
+    levels = None
+    lv = _loop_var(loop) if loop[0] == "for" else None
+    if lv:
+        init = [a for a in cstmt.assignments(loop[1]) if a[0] == lv[0] and a[1] == "="]
+        start = cstmt.value(init[0][2], {}) if init else None
+        if isinstance(start, int):
+            levels = []
+            x = start
+            while len(levels) < 50 and cstmt.truth(loop[2], {lv[0]: x}):
+                levels.append(x)
+                x += 1
+    if levels is None:
+        ctx.unrec("R3", f"{label}:five levels", where, f"cannot enumerate the levels of `{cstmt.txt(loop[1])}; {cstmt.txt(loop[2])}; {cstmt.txt(loop[3]) if loop[0] == 'for' else ''}`")
+        return
+    LV = lv[0]
+    ctx.check(levels == [1, 2, 3, 4, 5], "R3", f"{label}:five levels", where, "levels 1..5", found=f"{cstmt.txt(loop[1])}; {cstmt.txt(loop[2])}; {cstmt.txt(loop[3])} -> {levels}")
+    lbody = loop[4]
+    lstm = lbody[1] if lbody[0] == "block" else [lbody]
+    at = [i for i, x in enumerate(lstm) if reinit(x)]
+    if len(at) != 1:
+        ctx.unrec("R3", f"{label}:re-initialisation", where, "CVodeReInit is not a statement of the level body itself")
+        return
+    rst = lstm[at[0]]
+    rcall = reinit(rst)
+    # ---- G: the target of the last sub-step, as a function of the state at the re-initialisation
+    try:
+        def substeps(st):
+            return st[0] in ("for", "while") and any(_is_call(x, "CVode") for x, _ in cstmt.walk(st))
+        post = cstmt.Sym(stop=substeps)
+        r = post.run(("block", lstm[at[0] + 1:]))
+        if not r or r[0] != "stop":
+            raise cstmt.Unknown("no sub-step loop around a CVode call after the re-initialisation")
+        sub = r[1]
+        sv = _loop_var(sub)
+        if not sv:
+            raise cstmt.Unknown(f"cannot tell the last iteration of the sub-step loop `{cstmt.txt(sub[2] if sub[0] == 'for' else sub[1])}`")
+        post.s[sv[0]] = post.subst(cstmt.tokenize(sv[1]))
+        post.stop = lambda st: bool(_is_call(st, "CVode"))
+        r = post.run(sub[4] if sub[0] == "for" else sub[2])
+        if not r or r[0] != "stop":
+            raise cstmt.Unknown("the CVode call of the sub-step loop is not reached unconditionally")
+        cv = _is_call(r[1], "CVode")
+        args = [cstmt.norm(a) for a in cv[2]]
+        okc = cv[0] == FLAG and len(args) == 5 and args[0] == "cv_mem_" and args[2] == "cv_y_" and args[3] == "&" + T0 and args[4] == "CV_NORMAL"
+        ctx.check(okc, "R3", f"{label}:CVode call", where, f"{FLAG} = CVode(cv_mem_, tout, cv_y_, &{T0}, CV_NORMAL): progress is reported into {T0}", found=f"{cv[0]} = CVode({', '.join(args)})")
+        G = post.subst(cstmt.strip_casts(cv[2][1])) if len(cv[2]) > 1 else "?"
+        Gt = cstmt.tokenize(G)
+    except cstmt.Unknown as ex:
+        ctx.unrec("R3", f"{label}:last sub-step reaches dt", where, str(ex))
+        return
+    # ---- the state each flag leaves at the re-initialisation
+    W = cstmt.written(loop)
+    outcome = {}
+    try:
+        for v in NEG:
+            pre = cstmt.Sym({DT: DT + "__entry", T0: T0 + "__entry"}, {AB: AB + "__entry"}, {FLAG: v}, stop=lambda st: st is loop)
+            r = pre.run(body)
+            if r and r[0] == "return" and cstmt.value(r[1], CONSTS) == 1:
+                outcome[v] = ("fail", None)
+                continue
+            if not r or r[0] != "stop":
+                raise cstmt.Unknown(f"with {FLAG} = {v} the ladder is not reached ({r})")
+            for lvl in (levels[0], levels[-1]) if levels else (1,):
+                head = cstmt.Sym({k: (k + "__head" if k in W else e) for k, e in pre.s.items()}, {k: (k + "__head" if k in W else e) for k, e in pre.a.items()},
+                                 {FLAG: v, LV: lvl}, stop=lambda st: st is rst)
+                hs = head.clone()
+                r = head.run(lbody)
+                if r and r[0] == "return":
+                    val = cstmt.value(r[1], CONSTS)
+                    if val not in (0, 1):
+                        raise cstmt.Unknown(f"with {FLAG} = {v} the level leaves with `{cstmt.txt(r[1])}`")
+                    res = ("fail" if val == 1 else "success", None)
+                elif r and r[0] == "stop":
+                    res = ("reach", (pre, hs, head))
+                else:
+                    raise cstmt.Unknown(f"with {FLAG} = {v} the level body ends in {r} before the re-initialisation")
+                if v in outcome and outcome[v][0] != res[0]:
+                    raise cstmt.Unknown(f"the treatment of {FLAG} = {v} depends on the level")
+                outcome[v] = res
+    except cstmt.Unknown as ex:
+        ctx.unrec("R3", f"{label}:ladder", where, f"the start of a level is not understood: {ex}")
+        return
+    reach = sorted(v for v, o in outcome.items() if o[0] == "reach")
+    lost = [v for v in REC if outcome[v][0] != "reach"]
+    ctx.check(not lost, "R3", f"{label}:recoverable flags", where, "flags -1..-4 are the recoverable set", expected="-1..-4 continue with the next level",
+              found=f"{lost} leave the ladder; flags that continue: {reach}")
+    ctx.check(outcome[-6][0] == "reach", "R3", f"{label}:reset flag", where, "flag -6 is the reset flag", expected="-6 restarts from the initial state", found=f"flags that continue: {reach}")
+    others = [v for v in NEG if v not in REC + RESET and outcome[v][0] != "fail"]
+    ctx.check(not others, "R3", f"{label}:other flags fail", where, "any other negative flag leaves with NAUNET_FAIL", expected="NAUNET_FAIL for every flag outside -1..-4, -6",
+              found=f"{others} go on integrating")
+
+    def verdict(key, pairs, okmsg, badmsg, expected):
+        vals = [cstmt.same_value(a, b) if kind == "scalar" else (None if cstmt.OPAQUE in a + b else a == b) for kind, a, b in pairs]
+        found = "; ".join(f"{a}  vs  {b}" for kind, a, b in pairs)[:300]
+        if any(x is False for x in vals):
+            ctx.bad("R3", key, where, badmsg, expected=expected, found=found)
+        elif any(x is None for x in vals):
+            ctx.unrec("R3", key, where, f"a value could not be followed: {found}")
+        else:
+            ctx.ok("R3", key, where, okmsg)
+    for v in REC:
+        if outcome[v][0] != "reach":
+            continue
+        pre, hs, fin = outcome[v][1]
+        verdict(f"{label}:recoverable branch",
+                [("scalar", fin.subst(Gt), f"({hs.subst(Gt)}) - ({hs.expr(T0)})"), ("array", fin.a.get(AB, AB), hs.a.get(AB, AB))],
+                f"keeps the reached state and the time still to integrate ({DT} <- {DT} - {T0})",
+                f"after a recoverable flag the level does not integrate (time left) - (time reached {T0}) from the state reached: the interval is over- or under-run while success is returned",
+                f"{AB} as reached; {DT} - {T0} still to integrate")
+        break
+    if outcome[-6][0] == "reach":
+        pre, hs, fin = outcome[-6][1]
+        verdict(f"{label}:reset branch",
+                [("scalar", fin.subst(Gt), pre.subst(Gt)), ("array", fin.a.get(AB, AB), "ab_init_")],
+                "restores the initial state and the full interval",
+                "after the reset flag the level does not integrate the full interval from ab_init_ (a shortened / stale interval is restored, or the state is not the initial one): "
+                "part of the interval is skipped while success is returned",
+                "ab_init_; the whole interval as given at entry")
+        verdict(f"{label}:last sub-step reaches dt", [("scalar", pre.subst(Gt), DT + "__entry")],
+                f"with the last step the target canonicalises to {DT} (the level integrates the whole remaining time)",
+                f"the last sub-step of a level does not end at the time still to integrate", DT)
+    for v in reach:
+        pre, hs, fin = outcome[v][1]
+        args = [cstmt.norm(a) for a in rcall[2]]
+        t_arg = fin.subst(cstmt.strip_casts(rcall[2][1])) if len(rcall[2]) == 3 else "?"
+        z = cstmt.same_value(t_arg, "0")
+        okr = len(args) == 3 and args[0] == "cv_mem_" and args[2] == "cv_y_" and z is True
+        if z is None and len(args) == 3:
+            ctx.unrec("R3", f"{label}:re-initialisation", where, f"cannot follow the restart time `{t_arg}`")
+        else:
+            ctx.check(okr, "R3", f"{label}:re-initialisation", where, f"the integrator restarts at time 0 from cv_y_ (= {AB}): CVodeReInit(cv_mem_, 0, cv_y_)", found=f"CVodeReInit({', '.join(args)}) with time = {t_arg}")
+        break
+
+
+def _r2_solve(ctx, label, mth):
+    fn = _func(ctx, CV, {"general.method": mth}, "Naunet::Solve")
+    if fn is None:
+        return
+    F = fn.fn
+    if not fn.params or len(fn.params) < 2:
+        ctx.unrec("R2", f"{label}:Solve:HandleError receives the flag", (CV, 0), f"parameters of Solve not understood: {fn.header}")
+        return
+    AB, DT = fn.params[0], fn.params[1]
+    cvs = [(F.pos[id(s)], _is_call(s, "CVode")) for s, c in F.seq if _is_call(s, "CVode")]
+    hes = [(F.pos[id(s)], _is_call(s, "HandleError")) for s, c in F.seq if _is_call(s, "HandleError")]
+    if len(cvs) != 1 or len(hes) != 1:
+        ctx.unrec("R2", f"{label}:Solve:HandleError receives the flag", (CV, 0), f"expected `x = CVode(..)` and `y = HandleError(..)`, found {len(cvs)} and {len(hes)}")
+        return
+    (cvi, cv), (hei, he) = cvs[0], hes[0]
+    ca, ha = [cstmt.norm(a) for a in cv[2]], [cstmt.norm(a) for a in he[2]]
+    T = ca[3][1:] if len(ca) == 5 and ca[3].startswith("&") else None
+    ok = cvi < hei and T is not None and ca == ["cv_mem_", DT, "cv_y_", "&" + T, "CV_NORMAL"] and ha == [cv[0], AB, DT, T] \
+        and not F.written_between({cv[0], T, DT}, cvi, hei)
+    ctx.check(ok, "R2", f"{label}:Solve:HandleError receives the flag", (CV, 0), f"flag = HandleError({cv[0]}, {AB}, {DT}, {T}) right after {cv[0]} = CVode(cv_mem_, {DT}, cv_y_, &{T}, ..)",
+              expected="the flag, the state, the interval and the time CVode reached", found=f"CVode({', '.join(ca)}) then HandleError({', '.join(ha)})")
+    FL = he[0]
+    rets = [s for s, c in F.seq if s[0] == "return"]
+    ident = bool(rets) and all(cstmt.value(rets[-1][1], {FL: x, **CONSTS}) == x for x in (0, 1)) and not F.written_between({FL}, hei, F.pos[id(rets[-1])])
+    rest = all(cstmt.value(r[1], {FL: 1, **CONSTS}) == 1 for r in rets)
+    ctx.check(ident and rest, "R2", f"{label}:Solve:returns HandleError's result", (CV, 0), f"Solve returns `{FL}`", found=str([cstmt.txt(r[1]) for r in rets]))
+    logs = [(x, c) for x, c in F.seq if x[0] == "expr" and "ab_init_" in x[1] and "fprintf" in x[1]]
+    ok = bool(logs)
+    for x, c in logs:
+        # tests made before the result existed (the early returns of the set-up calls) say nothing about it
+        g = [y for y in _guards(F, c, keep=(FL,)) if y[0] == "if" and F.pos.get(id(y[3]), 0) > hei]
+        ok = ok and cstmt.guards_truth(g, {FL: 1, **CONSTS}) is True and cstmt.guards_truth(g, {FL: 0, **CONSTS}) is False
+    ctx.check(ok, "R2", f"{label}:Solve:initial state logged on failure", (CV, 0), f"ab_init_ is written to the error file exactly under `{FL} == NAUNET_FAIL`")
+    saved = [F.pos[id(s)] for s, c in F.seq for d, src, n in (cstmt.copies(s) or []) if s[0] in ("for", "expr") and d == "ab_init_" and src == AB and n == "NEQUATIONS"]
+    ctx.check(bool(saved) and min(saved) < cvi and not F.written_between({AB}, min(saved), cvi), "R3", f"{label}:Solve:initial state saved", (CV, 0),
+              "ab_init_ (and ab_tmp_) are copies of the state taken before the first CVode call")
 
 
 def _r2_r3(ctx):
     for mth in ("dense", "sparse"):
         label = f"cvode/{mth}"
-        body, text = _body(ctx, CV, {"general.method": mth}, "Naunet::HandleError")
-        if body is None:
+        fn = _func(ctx, CV, {"general.method": mth}, "Naunet::HandleError")
+        if fn is None:
             ctx.missing("R2", f"{label}:HandleError", (CV, 0), "HandleError not found")
             continue
-        stmts = list(cstmt.walk(body))
-        # ---------------- R2: guarded success
-        rets = [(s, c) for s, c in stmts if s[0] == "return"]
-        vals = {cstmt.norm(s[1]) for s, c in rets}
-        ctx.check(vals <= {"NAUNET_SUCCESS", "NAUNET_FAIL"}, "R2", f"{label}:HandleError:return values", (CV, 0), "every exit returns NAUNET_SUCCESS or NAUNET_FAIL", found=str(sorted(vals)))
-        nsucc = 0
-        for s, c in rets:
-            if cstmt.norm(s[1]) != "NAUNET_SUCCESS":
-                continue
-            nsucc += 1
-            guards = [cstmt.norm(g[1]) for g in c if g[0] == "if" and g[2]]
-            ok = any(g in ("cvflag>=0", "0<=cvflag", "cvflag>-1") for g in guards)
-            ctx.check(ok, "R2", f"{label}:HandleError:success#{nsucc} guarded", (CV, 0),
-                      "success is returned only under `cvflag >= 0`" if ok else "a `return NAUNET_SUCCESS` is reachable without the test `cvflag >= 0` on the last integrator flag",
-                      expected="if (cvflag >= 0) { .. return NAUNET_SUCCESS; }", found=str(guards))
-        ctx.check(nsucc == 2, "R2", f"{label}:HandleError:success exits", (CV, 0), "success exits: at entry (nothing to repair) and after a completed level", found=str(nsucc))
-        # the last statement of the function is the failure return
-        last = body[1][-1]
-        ctx.check(last[0] == "return" and cstmt.norm(last[1]) == "NAUNET_FAIL", "R2", f"{label}:HandleError:falls through to failure", (CV, 0),
-                  "when all levels are exhausted the function returns NAUNET_FAIL", found=cstmt.txt(last[1]) if last[0] == "return" else last[0])
-        # no assignment to cvflag between the success test and the return, inside that if
-        for s, c in stmts:
-            if s[0] == "if" and cstmt.norm(s[1]) == "cvflag>=0":
-                inner = [x for x, _ in cstmt.walk(s[2]) if x[0] == "expr" and x[1][:2] == ["cvflag", "="]]
-                ctx.check(not inner, "R2", f"{label}:HandleError:flag unchanged before success", (CV, 0), "the tested flag is the one returned on")
-        # ---------------- R3 premises
-        level_loops = [(s, c) for s, c in stmts if s[0] == "for" and "level" in s[1]]
-        ctx.check(len(level_loops) == 1, "R3", f"{label}:level loop", (CV, 0), "one recovery ladder `for (int level = 1; level < 6; level++)`", found=str(len(level_loops)))
-        if len(level_loops) != 1:
+        if not fn.params or len(fn.params) != 4:
+            ctx.unrec("R2", f"{label}:HandleError", (CV, 0), f"expected HandleError(flag, state, interval, time reached), found {fn.header}")
             continue
-        loop, lconds = level_loops[0]
-        lcond = cstmt.norm(loop[2])
-        ctx.check(cstmt.norm(loop[1]) == "intlevel=1" and lcond == "level<6" and cstmt.norm(loop[3]) in ("level++", "++level", "level+=1"), "R3", f"{label}:five levels", (CV, 0),
-                  "levels 1..5", found=f"{cstmt.txt(loop[1])}; {cstmt.txt(loop[2])}; {cstmt.txt(loop[3])}")
-        # dt_init captured once, before the loop
-        decl = [(s, c) for s, c in stmts if s[0] == "expr" and "dt_init" in s[1] and "=" in s[1] and s[1][s[1].index("=") - 1] == "dt_init"]
-        in_loop = {id(x) for x, _ in cstmt.walk(loop[4])}
-        ok = len(decl) == 1 and id(decl[0][0]) not in in_loop and cstmt.norm(decl[0][0][1]).endswith("dt_init=dt") and not any(g[0] in ("for", "while") for g in decl[0][1])
-        ctx.check(ok, "R3", f"{label}:dt_init captured once before the ladder", (CV, 0),
-                  "dt_init = dt is taken once, before any level changes dt" if ok else
-                  "dt_init is (re)assigned inside the level loop: after a recoverable failure has shortened dt, a later reset (-6) restores the shortened value and part of the "
-                  "interval is skipped while success is returned",
-                  expected="realtype dt_init = dt;  before `for (int level ..`", found="; ".join(cstmt.txt(s[1]) + (" [inside the loop]" if id(s) in in_loop else "") for s, c in decl))
-        lb = loop[4]
-        # the if / else-if chain on cvflag
-        chain = [s for s in (lb[1] if lb[0] == "block" else [lb]) if s[0] == "if"]
-        branches = {}
-        if chain:
-            st = chain[0]
-            while st is not None and st[0] == "if":
-                branches[cstmt.norm(st[1])] = st[2]
-                st = st[3]
-        rec = next((b for c, b in branches.items() if c in ("cvflag<0&&cvflag>-5", "cvflag>-5&&cvflag<0", "cvflag>=-4&&cvflag<0", "cvflag<0&&cvflag>=-4")), None)
-        rst = next((b for c, b in branches.items() if c in ("cvflag==-6", "-6==cvflag")), None)
-        unr = next((b for c, b in branches.items() if c == "cvflag<0"), None)
-        ctx.check(rec is not None, "R3", f"{label}:recoverable flags", (CV, 0), "flags -1..-4 are the recoverable set", expected="cvflag < 0 && cvflag > -5", found=str(sorted(branches)))
-        ctx.check(rst is not None, "R3", f"{label}:reset flag", (CV, 0), "flag -6 is the reset flag", expected="cvflag == -6", found=str(sorted(branches)))
-        ctx.check(unr is not None and any(x[0] == "return" and cstmt.norm(x[1]) == "NAUNET_FAIL" for x, _ in cstmt.walk(unr)), "R3", f"{label}:other flags fail", (CV, 0),
-                  "any other negative flag leaves with NAUNET_FAIL")
-
-        def has(block, pats):
-            exprs = [cstmt.norm(x[1]) for x, _ in cstmt.walk(block) if x[0] == "expr"]
-            return all(any(re.fullmatch(p, e) for e in exprs) for p in pats), exprs
-        if rec is not None:
-            ok, ex = has(rec, [r"dt-=t0|dt=dt-t0", r"ab_tmp_\[i\]=ab\[i\]"])
-            ctx.check(ok, "R3", f"{label}:recoverable branch", (CV, 0), "keeps the reached state (ab_tmp_ <- ab) and the time still to integrate (dt <- dt - t0)",
-                      expected="ab_tmp_[i] = ab[i]; dt -= t0;", found="; ".join(ex))
-        if rst is not None:
-            ok, ex = has(rst, [r"dt=dt_init", r"ab_tmp_\[i\]=ab_init_\[i\]"])
-            ctx.check(ok, "R3", f"{label}:reset branch", (CV, 0), "restores the initial state and the full interval", expected="ab_tmp_[i] = ab_init_[i]; dt = dt_init;", found="; ".join(ex))
-        # order inside the level body: t0 = 0; ab = ab_tmp_; CVodeReInit(cv_mem_, t0, cv_y_)
-        flat = [(x, c) for x, c in cstmt.walk(lb)]
-        seq = [cstmt.norm(x[1]) for x, c in flat if x[0] == "expr"]
-
-        def pos(p):
-            return next((i for i, e in enumerate(seq) if re.fullmatch(p, e)), -1)
-        p_t0, p_ab, p_re = pos(r"t0=0(\.0*)?"), pos(r"ab\[i\]=ab_tmp_\[i\]"), pos(r"cvflag=CVodeReInit\(cv_mem_,t0,cv_y_\)")
-        ctx.check(0 <= p_t0 < p_re and 0 <= p_ab < p_re, "R3", f"{label}:re-initialisation", (CV, 0),
-                  "t0 = 0 and ab = ab_tmp_ are installed before CVodeReInit(cv_mem_, t0, cv_y_)", found=f"t0@{p_t0} ab@{p_ab} reinit@{p_re}")
-        # sub-step target
-        env = {}
-        tout = None
-        for e in seq:
-            e2 = _strip_casts(e)
-            m = re.fullmatch(r"(?:realtype|double)?(\w+)=(.+)", e2)
-            m2 = re.fullmatch(r"(\w+)\+=(.+)", e2)
-            if m2:
-                env[m2.group(1)] = f"({env.get(m2.group(1), m2.group(1))})+({m2.group(2)})"
-            elif m and m.group(1) in ("logdt", "expo", "tout"):
-                env[m.group(1)] = m.group(2)
-        ok = False
-        found = str(env)
-        try:
-            if "tout" in env:
-                expr = env["tout"]
-                for _ in range(4):
-                    for k, v in env.items():
-                        if k != "tout":
-                            expr = re.sub(r"\b" + k + r"\b", f"({v})", expr)
-                expr = re.sub(r"\bstep\b", "nsubsteps", _strip_casts(expr))
-                c = calg.canon_str(expr)
-                ok = c.equiv(calg.canon_str("dt"))
-                found = f"{expr} -> {c.show()}"
-        except calg.CParseError as ex:
-            found = f"{ex}"
-        ctx.check(ok, "R3", f"{label}:last sub-step reaches dt", (CV, 0), "with step = nsubsteps the target pow(10, expo) canonicalises to dt (the level integrates the whole remaining time)",
-                  expected="dt", found=found[:200])
-        calls = [cstmt.assigned_call(x[1]) for x, c in flat if x[0] == "expr" and cstmt.assigned_call(x[1])]
-        cv = [a for a in calls if a[1] == "CVode"]
-        ok = len(cv) == 1 and cv[0][0] == "cvflag" and [cstmt.norm(a) for a in cv[0][2]] == ["cv_mem_", "tout", "cv_y_", "&t0", "CV_NORMAL"]
-        ctx.check(ok, "R3", f"{label}:CVode call", (CV, 0), "cvflag = CVode(cv_mem_, tout, cv_y_, &t0, CV_NORMAL): progress is reported into t0", found=str([cstmt.norm(a) for a in cv[0][2]]) if cv else "")
-        # ---------------- Solve
-        sb, _ = _body(ctx, CV, {"general.method": mth}, "Naunet::Solve")
-        if sb is None:
-            continue
-        sst = list(cstmt.walk(sb))
-        exprs = [cstmt.norm(x[1]) for x, c in sst if x[0] == "expr"]
-        he = next((i for i, e in enumerate(exprs) if re.fullmatch(r"intflag=HandleError\(cvflag,ab,dt,t0\)", e)), -1)
-        cvi = next((i for i, e in enumerate(exprs) if re.fullmatch(r"cvflag=CVode\(cv_mem_,dt,cv_y_,&t0,CV_NORMAL\)", e)), -1)
-        ctx.check(0 <= cvi < he, "R2", f"{label}:Solve:HandleError receives the flag", (CV, 0), "flag = HandleError(cvflag, ab, dt, t0) right after cvflag = CVode(cv_mem_, dt, cv_y_, &t0, ..)",
-                  found=f"CVode@{cvi} HandleError@{he}")
-        rets = [cstmt.norm(x[1]) for x, c in sst if x[0] == "return"]
-        ctx.check(rets and rets[-1] == "flag" and set(rets) <= {"flag", "NAUNET_FAIL"}, "R2", f"{label}:Solve:returns HandleError's result", (CV, 0), "Solve returns `flag`", found=str(rets))
-        logs = [(x, c) for x, c in sst if x[0] == "expr" and "ab_init_" in x[1] and "fprintf" in x[1]]
-        ok = bool(logs) and all(any(g[0] == "if" and cstmt.norm(g[1]) == "flag==NAUNET_FAIL" and g[2] for g in c) for x, c in logs)
-        ctx.check(ok, "R2", f"{label}:Solve:initial state logged on failure", (CV, 0), "ab_init_ is written to the error file exactly under `flag == NAUNET_FAIL`")
-        init = next((i for i, e in enumerate(exprs) if e == "ab_init_[i]=ab[i]"), -1)
-        ctx.check(0 <= init < cvi, "R3", f"{label}:Solve:initial state saved", (CV, 0), "ab_init_ (and ab_tmp_) are copies of the state taken before the first CVode call")
+        FLAG, AB, DT, T0 = fn.params
+        _r2_handle_error(ctx, label, fn.fn, FLAG)
+        _r3_ladder(ctx, label, fn.fn, FLAG, AB, DT, T0)
+        _r2_solve(ctx, label, mth)
 
 
 def _r4(ctx):
